@@ -2,7 +2,7 @@
 From Coq Require Import List NArith Bool.
 From Coq Require Strings.String Strings.Ascii.
 Import Strings.String.StringSyntax.
-From Dae Require Import C11_Spec C11_Model C11_Louds.
+From Dae Require Import C11_Spec C11_Model C11_Louds C11_Build.
 From Dae.gen Require Import C11_Extracted.
 Import ListNotations.
 Open Scope N_scope.
@@ -246,3 +246,11 @@ Definition check_bcase (c : bcase) : list (N * N) :=
 
 Definition bsignature (c : bcase) : N * N * N * N :=
   (bc_unit c, N.min (N.of_nat (length (bc_buf c))) 16, N.of_nat (length (bc_panics c)), 0).
+
+(* ---------------- Build's concurrency shape (extracted from the source on every run) ---------------- *)
+(* one write of a concurrently started function literal to a receiver field: (0 append | 1 indexed slot |
+   2 plain store, a mutex is held) *)
+Definition shape_of (l : list (N * bool)) : shape :=
+  map (fun w => (match fst w with 0 => WAppend | 1 => WIndex | _ => WStore end, snd w)) l.
+Definition shape_locked (l : list (N * bool)) : bool :=
+  match shape_disc (shape_of l) with Locked => true | Racy => false end.
